@@ -169,3 +169,82 @@ MUTANTS += [
     T("twin-fd-x0-nparray", ["C19"],
       [(ROUT, "                x0 = it[0].copy()\n", "                x0 = np.array(it[0])\n")]),
 ]
+
+SPAR = "pymoto/solvers/sparse.py"
+AUTO = "pymoto/solvers/auto_determine.py"
+
+MUTANTS += [
+    # --------------------------------------------------------------------------------------------- C05 solvers
+    B("cg-x0-nocopy", ["C05"], ["R-EFF-SOLVE"],
+      [(ITER, "if x0 is None else x0.copy()", "if x0 is None else x0")], "CG.solve"),
+    B("precond-returns-rhs", ["C05"], ["R-EFF-SOLVE"],
+      [(ITER, "    def solve(self, rhs, x0=None, trans='N'):\n        return rhs.copy()\n", "    def solve(self, rhs, x0=None, trans='N'):\n        return rhs\n")],
+      "Preconditioner.solve"),
+    B("sor-inplace-rhs", ["C05"], ["R-EFF-SOLVE"],
+      [(ITER, "            u1 = self.L.solve(rhs)\n            u1 *= self.Dw[:, None]\n", "            u1 = rhs\n            u1 *= self.Dw[:, None]\n            u1 = self.L.solve(u1)\n")],
+      "SOR.solve"),
+    B("lu-T-falls-to-raise", ["C05"], ["R-TRANS-EXH"],
+      [(DENS, "        elif trans == 'T':\n            return self.p @ spla.solve_triangular(self.l, spla.solve_triangular(self.u, rhs, trans='T'),\n                                                  lower=True, trans='T')\n        elif trans == 'H':",
+        "        elif trans == 'H':")], "SolverDenseLU"),
+    B("sparse-lu-rejects-H", ["C05"], ["R-TRANS-EXH"],
+      [(SPAR, "    def solve(self, rhs, x0=None, trans='N'):\n        r\"\"\" Solves the linear system of equations :math:`\\mathbf{A} \\mathbf{x} = \\mathbf{b}` by forward and backward\n        substitution of :math:`\\mathbf{x} = \\mathbf{U}^{-1}\\mathbf{L}^{-1}\\mathbf{b}`.\n\n        Adjoint system solves the linear system of equations :math:`\\mathbf{A}^\\text{H}\\mathbf{x} = \\mathbf{b}` by\n        forward and backward substitution of :math:`\\mathbf{x} = \\mathbf{L}^{-\\text{H}}\\mathbf{U}^{-\\text{H}}\\mathbf{b}`\n        \"\"\"\n        if trans not in ['N', 'T', 'H']:",
+        "    def solve(self, rhs, x0=None, trans='N'):\n        r\"\"\" Solves the linear system of equations :math:`\\mathbf{A} \\mathbf{x} = \\mathbf{b}` by forward and backward\n        substitution of :math:`\\mathbf{x} = \\mathbf{U}^{-1}\\mathbf{L}^{-1}\\mathbf{b}`.\n\n        Adjoint system solves the linear system of equations :math:`\\mathbf{A}^\\text{H}\\mathbf{x} = \\mathbf{b}` by\n        forward and backward substitution of :math:`\\mathbf{x} = \\mathbf{L}^{-\\text{H}}\\mathbf{U}^{-\\text{H}}\\mathbf{b}`\n        \"\"\"\n        if trans not in ['N', 'T']:")],
+      "SolverSparseLU"),
+    B("ilu-ignores-trans", ["C05"], ["R-TRANS-EXH"],
+      [(ITER, "        return self.ilu.solve(rhs, trans=trans)\n", "        return self.ilu.solve(rhs)\n")], "ILU"),
+    B("jacobi-sig-order", ["C05"], ["R-SOLVER-SIG"],
+      [(ITER, "    def solve(self, rhs, x0=None, trans='N'):\n        if trans == 'N' or trans == 'T':\n            return self.w * (rhs.T/self.D).T",
+        "    def solve(self, rhs, trans='N', x0=None):\n        if trans == 'N' or trans == 'T':\n            return self.w * (rhs.T/self.D).T")], "DampedJacobi"),
+    B("auto-cholesky-without-diag-test", ["C05"], ["R-AUTO-GUARD"],
+      [(AUTO, "            if np.all(A.diagonal() > 0) or np.all(A.diagonal() < 0):\n                return SolverDenseCholesky()\n            else:\n                return SolverDenseLDL(hermitian=ishermitian)\n",
+        "            return SolverDenseCholesky()\n")], "auto_determine_solver"),
+    B("auto-ldl-for-general", ["C05"], ["R-AUTO-GUARD"],
+      [(AUTO, "            # TODO: Detect if the matrix is Hessenberg\n            return SolverDenseLU()\n", "            # TODO: Detect if the matrix is Hessenberg\n            return SolverDenseLDL(hermitian=False)\n")],
+      "auto_determine_solver"),
+    B("auto-diag-check-skipped", ["C05"], ["R-AUTO-GUARD"],
+      [(AUTO, "    if isdiagonal:\n        return SolverDiagonal()\n", "    if isdiagonal or issparse:\n        return SolverDiagonal()\n")], "auto_determine_solver"),
+    T("twin-cg-x0-nparray", ["C05"],
+      [(ITER, "if x0 is None else x0.copy()", "if x0 is None else np.array(x0)")]),
+    T("twin-lu-else-branch", ["C05"],
+      [(DENS, "        elif trans == 'H':\n            return self.p @ spla.solve_triangular(self.l, spla.solve_triangular(self.u, rhs, trans='C'),\n                                                  lower=True, trans='C')\n        else:\n            raise TypeError(\"Only N, T, and H transposition is possible\")\n",
+        "        elif trans != 'H':\n            raise TypeError(\"Only N, T, and H transposition is possible\")\n        return self.p @ spla.solve_triangular(self.l, spla.solve_triangular(self.u, rhs, trans='C'),\n                                              lower=True, trans='C')\n")]),
+    # ------------------------------------------------------------------------------------------ C06 LDAWrapper
+    B("lda-diag-rows-only", ["C06"], ["R-DIAG-DEP"],
+      [(SOLV, "    return np.logical_and.reduce([has_diag, nnz_rows <= 1, nnz_cols <= 1])\n", "    return np.logical_and(has_diag, nnz_rows <= 1)\n")], "get_diagonal_indices"),
+    B("lda-diag-out-slot", ["C06"], ["R-UFUNC-ARITY", "R-DIAG-DEP"],
+      [(SOLV, "    return np.logical_and.reduce([has_diag, nnz_rows <= 1, nnz_cols <= 1])\n", "    return np.logical_and(has_diag, nnz_rows <= 1, nnz_cols <= 1)\n")], "get_diagonal_indices"),
+    B("lda-adjoint-db-not-cleared", ["C06"], ["R-DB-CLEAR"],
+      [(SOLV, "        self.xadj_stored.clear()\n        self.badj_stored.clear()\n", "        self.xadj_stored.clear()\n")], "LDAWrapper.update"),
+    B("lda-clear-only-if-shape-changed", ["C06"], ["R-DB-CLEAR"],
+      [(SOLV, "        self.x_stored.clear()\n        self.b_stored.clear()\n", "        if self.A is None or A.shape != self.A.shape:\n            self.x_stored.clear()\n            self.b_stored.clear()\n"),
+       (SOLV, "        self.A = A\n        diags = get_diagonal_indices(A)\n", "        diags = get_diagonal_indices(A)\n"),
+       (SOLV, "        self.solver.update(A)\n\n    def _do_solve_1rhs", "        self.A = A\n        self.solver.update(A)\n\n    def _do_solve_1rhs")], "LDAWrapper.update"),
+    B("lda-crossed-db-pairs", ["C06"], ["R-DB-PAIR"],
+      [(SOLV, "                                      self.xadj_stored, self.badj_stored,\n", "                                      self.xadj_stored, self.b_stored,\n")], "LDAWrapper.solve"),
+    B("lda-adjoint-inner-mode-T", ["C06"], ["R-DB-PAIR"],
+      [(SOLV, "lambda b, x_init: self.solver.solve(b, trans='H', x0=x_init)", "lambda b, x_init: self.solver.solve(b, trans='T', x0=x_init)")], "LDAWrapper.solve"),
+    B("lda-always-inner-solve", ["C06"], ["R-INNER-GUARD"],
+      [(SOLV, "        if np.any(self._did_solve):\n", "        if True:\n")], "_do_solve_1rhs"),
+    B("lda-default-off", ["C06"], ["R-LDA-DEFAULT"],
+      [(LINA, "    use_lda_solver = True\n", "    use_lda_solver = False\n")], "LinSolve"),
+    T("twin-lda-recreate-lists", ["C06"],
+      [(SOLV, "        self.x_stored.clear()\n        self.b_stored.clear()\n", "        self.x_stored = []\n        self.b_stored = []\n")]),
+    T("twin-diag-mask-and-chain", ["C06"],
+      [(SOLV, "    return np.logical_and.reduce([has_diag, nnz_rows <= 1, nnz_cols <= 1])\n", "    return np.logical_and(np.logical_and(has_diag, nnz_rows <= 1), nnz_cols <= 1)\n")]),
+    # ------------------------------------------------------------------------------------------- C15 DyadCarrier
+    B("dyad-append-nocopy", ["C15"], ["R-DYAD-OWN"],
+      [(DYAD, "            self.v.append(vi.copy())\n", "            self.v.append(vi)\n")], "add_dyad"),
+    B("dyad-neg-inplace", ["C15"], ["R-DYAD-PURE"],
+      [(DYAD, "        return DyadCarrier([-uu for uu in self.u], self.v, shape=self.shape)\n", "        for uu in self.u:\n            uu *= -1\n        return self\n")], "__neg__"),
+    B("dyad-add-mutates-self", ["C15"], ["R-DYAD-PURE"],
+      [(DYAD, "            return self.copy().__iadd__(other)\n", "            return self.__iadd__(other)\n")], "__add__"),
+    B("dyad-dot-first-vector", ["C15"], ["R-EMPTY-IDX"],
+      [(DYAD, "        val = np.zeros(max(0, self.shape[0]), dtype=np.result_type(self.dtype, other.dtype))\n", "        val = np.zeros_like(self.u[0])\n")], "__dot__"),
+    B("dyad-diagonal-float-acc", ["C15"], ["R-ACC-DTYPE"],
+      [(DYAD, "        diag = np.zeros(n, dtype=self.dtype)\n", "        diag = np.zeros(n)\n")], "diagonal"),
+    B("dyad-setitem-on-operand", ["C15"], ["R-DYAD-PURE"],
+      [(DYAD, "    def __rmul__(self, other):  # other * self\n        return DyadCarrier([other*ui for ui in self.u], self.v, shape=self.shape)\n",
+        "    def __rmul__(self, other):  # other * self\n        for ui in self.u:\n            ui[...] = other*ui\n        return DyadCarrier(self.u, self.v, shape=self.shape)\n")], "__rmul__"),
+    T("twin-dyad-copy-nparray", ["C15"],
+      [(DYAD, "            self.v.append(vi.copy())\n", "            self.v.append(np.array(vi))\n")]),
+]
